@@ -12,7 +12,7 @@ Qed.
 
 (* ---------- traces of a single-replica group (used in examples and refutations) ---------- *)
 
-Definition cfg2 (opt : bool) : config := mkConfig 2 2 opt.
+Definition cfg2 (opt : bool) : config := mkConfig 2 2 opt true true.
 
 Definition rdy (i : N) (tv : bool) : ready := mkReady 1 i i true tv i 1 i i.
 
@@ -83,4 +83,52 @@ Lemma cycle_sched : sched_ok (cfg2 true) init_state trace_cycle.
 Proof. apply sched_okb_ok. vm_compute. reflexivity. Qed.
 
 Lemma two_windows_not_sched : sched_okb (cfg2 true) init_state trace_two_windows = false.
+Proof. vm_compute. reflexivity. Qed.
+
+(* ---------- the code before the fixes, in the model ---------- *)
+
+(* before b025328: processReady published the committed entries before persistRaftState although they were
+   committed in the same Ready: the apply loop answers the client, the process dies before the WAL write *)
+Definition cfg_before_b025328 : config := mkConfig 2 2 true false true.
+Definition trace_ack_before_save : list event := [EvRdBegin (rdy 1 true); EvRdPublish 1 1; EvApBefore 0 1; EvApAfter 1].
+
+Lemma ack_before_save_refuted :
+  exists s, run cfg_before_b025328 init_state trace_ack_before_save = Ok s
+    /\ sched_okb cfg_before_b025328 init_state trace_ack_before_save = true
+    /\ acked s = 1 /\ recover_state s 0 0 = Ok [].
+Proof. eexists. vm_compute. repeat split; reflexivity. Qed.
+
+(* the code as it is rejects that order: the publication of entries committed in the same Ready is not enabled
+   before the save *)
+Lemma ack_before_save_rejected_now :
+  snd (run_from (cfg2 true) init_state trace_ack_before_save 0) = Some (1, R_GUARD).
+Proof. vm_compute. reflexivity. Qed.
+
+(* before c523023: two process deaths in a row between "snap file written" and "WAL marker written" (one goroutine
+   in the window each time: the schedule hypothesis holds), the snap directory purge at the second restart evicts
+   the only snapshot the WAL records; the first WAL segment being purged already, the node cannot restart *)
+Definition cfg_before_c523023 : config := mkConfig 2 2 true true false.
+Definition ev_restart (S L : N) : list event :=
+  [EvCrash 0 0; EvRcChosen S; EvRsRemoved S; EvRsCopied S; EvRcRestored S; EvRcReplay (L - S) (if L - S =? 0 then 0 else L) L].
+Definition ev_replay_apply (S L : N) : list event :=
+  [EvRdBegin (mkReady 0 0 0 false false 0 (L - S) (S + 1) L); EvRdPublish (L - S) L; EvRdSaveBefore; EvRdSaveAfter; EvRdAppendAfter; EvRdAdvance;
+   EvApBefore S (L - S); EvApAfter L; EvApRaftDone L; EvApTriggerBefore L S; EvApTriggerAfter L S].
+Definition trace_orphans : list event :=
+  ev_write 1 0 true false ++ ev_write 2 0 false true ++ ev_write 3 0 false false ++ ev_write 4 0 false true
+  ++ ev_write_snap 5 0 false false ++ ev_sn_to_file 5 ++ ev_sn_rest 5
+  ++ [EvPgBefore 3; EvPgAfter 3]
+  ++ ev_write_snap 6 5 false false ++ ev_sn_to_file 6
+  ++ ev_restart 5 6 ++ ev_replay_apply 5 6
+  ++ ev_write_snap 7 5 true false ++ ev_sn_to_file 7
+  ++ ev_restart 5 7 ++ [EvPgBefore 4; EvPgAfter 4].
+
+Lemma orphans_refuted :
+  exists s, run cfg_before_c523023 init_state trace_orphans = Ok s
+    /\ sched_okb cfg_before_c523023 init_state trace_orphans = true
+    /\ acked s = 7 /\ snapfiles s = [7; 6] /\ recover_state s 0 0 = Err E_FILE_NOT_FOUND.
+Proof. eexists. vm_compute. repeat split; reflexivity. Qed.
+
+(* with the orphaned files removed at startup the purge has nothing to evict *)
+Lemma orphans_rejected_now :
+  snd (run_from (cfg2 true) init_state trace_orphans 0) = Some (135, R_GUARD).
 Proof. vm_compute. reflexivity. Qed.
